@@ -175,14 +175,23 @@ theorem commitState_other (st : Store) (o : Obj) :
     intro a' ha k'
     rw [h2.2 a' ha k', h1.2 a' ha k']
 
-theorem codeAt_setCode (c : Cfg) (st : Store) (h code h' : Code) :
-    (st.setCode c h code).codeAt h' = if h' = h then (if code = c.tomb then 0 else code) else st.codeAt h' := by
+theorem codeAt_setCode (c : Cfg) (st : Store) (h code h' : Code) (ht : code ≠ c.tomb) :
+    (st.setCode c h code).codeAt h' = if h' = h then code else st.codeAt h' := by
   unfold Store.setCode Store.codeAt
-  by_cases ht : code = c.tomb
-  · simp only [ht, if_true, alookup_aerase]
-    by_cases hh : h' = h <;> simp [hh]
-  · simp only [ht, if_false, alookup_upsert]
-    by_cases hh : h' = h <;> simp [hh]
+  simp only [ht, if_false, alookup_upsert]
+  by_cases hh : h' = h <;> simp [hh]
+
+theorem balOf_removeAccount (st : Store) (a b : Addr) :
+    (st.removeAccount a).balOf b = if b = a then 0 else st.balOf b := by
+  unfold Store.removeAccount
+  by_cases hz : st.balOf a = 0
+  · simp only [hz, if_true]
+    by_cases hb : b = a
+    · subst hb; simp only [if_true]; exact hz
+    · simp only [hb, if_false]; rfl
+  · have hz' : ¬ (alookup a st.bal).getD 0 = 0 := hz
+    simp only [Store.balOf, hz', if_false, alookup_upsert]
+    by_cases hb : b = a <;> simp [hb]
 
 /-- `Finalise` deletes this object -/
 def finDel (ds : List Addr) (ao : Addr × Obj) : Bool := ao.2.suicided || (decide (ao.1 ∈ ds) && ao.2.empty)
@@ -225,7 +234,7 @@ theorem finaliseObj_other (c : Cfg) (ds : List Addr) (st : Store) (ao : Addr × 
   cases hdel : finDel ds ao with
   | true =>
     rw [finaliseObj_del c ds st ao hdel]
-    exact ⟨by simp [Store.removeAccount, alookup_aerase, hb], rfl, fun _ => rfl⟩
+    exact ⟨by simp [Store.removeAccount, alookup_aerase, hb], by rw [balOf_removeAccount]; simp [hb], fun _ => rfl⟩
   | false =>
     by_cases hd : ao.1 ∈ ds
     · rw [finaliseObj_commit c ds st ao hdel hd]
@@ -253,7 +262,7 @@ theorem finaliseObj_own (c : Cfg) (ds : List Addr) (st : Store) (ao : Addr × Ob
     (hnd : (akeys ao.2.dirty).Nodup) (hdho : ao.2.dirtyHasOrigin = true)
     (hcoh : ∀ k ov, alookup k ao.2.origin = some ov → ov = st.slot ao.2.addr k) :
     let st2 := finaliseObj c true ds st ao
-    (finDel ds ao = true → alookup ao.2.addr st2.acct = none ∧ st2.balOf ao.2.addr = st.balOf ao.2.addr ∧
+    (finDel ds ao = true → alookup ao.2.addr st2.acct = none ∧ st2.balOf ao.2.addr = 0 ∧
         ∀ k, st2.slot ao.2.addr k = st.slot ao.2.addr k) ∧
     (finDel ds ao = false → ao.1 ∈ ds → alookup ao.2.addr st2.acct = some (ao.2.nonce, ao.2.codeHash) ∧
         st2.balOf ao.2.addr = ao.2.bal ∧ ∀ k, st2.slot ao.2.addr k = ao.2.slotView st k) ∧
@@ -261,7 +270,7 @@ theorem finaliseObj_own (c : Cfg) (ds : List Addr) (st : Store) (ao : Addr × Ob
   refine ⟨?_, ?_, ?_⟩
   · intro hdel
     rw [finaliseObj_del c ds st ao hdel]
-    exact ⟨by simp [Store.removeAccount], rfl, fun _ => rfl⟩
+    exact ⟨by simp [Store.removeAccount], by rw [balOf_removeAccount]; simp, fun _ => rfl⟩
   · intro hdel hd
     rw [finaliseObj_commit c ds st ao hdel hd]
     have hcs := commitState_spec st ao.2 hnd hdho hcoh
@@ -302,13 +311,13 @@ theorem finaliseObj_codes (c : Cfg) (ds : List Addr) (st : Store) (ao : Addr × 
         have hnt' : ¬ ao.2.code = c.tomb := fun e => hnt ⟨hcd'.1, hcd'.2, e⟩
         refine ⟨?_, ?_⟩
         · intro h hh
-          rw [hsa, codeAt_setCode]
+          rw [hsa, codeAt_setCode _ _ _ _ _ hnt']
           by_cases he : h = ao.2.codeHash
-          · simp only [he, if_true, hnt', if_false]; exact hce hcd'.1
+          · simp only [he, if_true]; exact hce hcd'.1
           · simp only [he, if_false]; rw [hcs]; exact hh
         · intro _ _ _ _
-          rw [hsa, codeAt_setCode]
-          simp only [if_true, hnt', if_false]; exact hce hcd'.1
+          rw [hsa, codeAt_setCode _ _ _ _ _ hnt']
+          simp only [if_true]; exact hce hcd'.1
       · simp only [hcd, Bool.false_eq_true, if_false]
         refine ⟨fun h hh => by rw [hsa, hcs]; exact hh, ?_⟩
         intro _ _ h1 h2
@@ -334,7 +343,7 @@ theorem slotView_congr {st st2 : Store} {o : Obj} (hs : ∀ k, st2.slot o.addr k
   simp only [Obj.slotView, hs k]
 
 structure Own (ds : List Addr) (st st' : Store) (ao : Addr × Obj) : Prop where
-  del : finDel ds ao = true → alookup ao.2.addr st'.acct = none ∧ st'.balOf ao.2.addr = st.balOf ao.2.addr ∧
+  del : finDel ds ao = true → alookup ao.2.addr st'.acct = none ∧ st'.balOf ao.2.addr = 0 ∧
       ∀ k, st'.slot ao.2.addr k = st.slot ao.2.addr k
   commit : finDel ds ao = false → ao.1 ∈ ds → alookup ao.2.addr st'.acct = some (ao.2.nonce, ao.2.codeHash) ∧
       st'.balOf ao.2.addr = ao.2.bal ∧ ∀ k, st'.slot ao.2.addr k = ao.2.slotView st k
@@ -390,7 +399,7 @@ theorem fold_finalise (c : Cfg) (ds : List Addr) : ∀ (objs : List (Addr × Obj
         refine ⟨?_, ?_, ?_⟩
         · intro hdel
           have h1 := this.del hdel
-          exact ⟨h1.1, h1.2.1.trans hoth.bal, fun k => (h1.2.2 k).trans (hoth.slot k)⟩
+          exact ⟨h1.1, h1.2.1, fun k => (h1.2.2 k).trans (hoth.slot k)⟩
         · intro hdel hd
           have h1 := this.commit hdel hd
           exact ⟨h1.1, h1.2.1, fun k => (h1.2.2 k).trans (slotView_congr hoth.slot k)⟩
@@ -505,20 +514,39 @@ theorem view_of_recs (st st' : Store) (hs : StoreOK st) (a : Addr) (hr : RecEq s
     · funext k; simp only [Obj.slotView, hf.2.2.1, alookup, hf.1]; exact hr.slot k
     · funext k; rw [hf.1]; exact hr.slot k
 
+theorem dho_bool {o : Obj} (h : DirtyHasOrigin o) : o.dirtyHasOrigin = true := by
+  simp only [Obj.dirtyHasOrigin, List.all_eq_true]
+  intro kv hkv
+  apply h kv.1
+  have : kv.1 ∈ akeys o.dirty := by simp only [akeys, List.mem_map]; exact ⟨kv, hkv, rfl⟩
+  exact (mem_akeys_iff_alookup o.dirty kv.1).mp this
+
+theorem takeWhile_all {α : Type} (p : α → Bool) : ∀ (l : List α), (∀ x ∈ l, p x = true) → l.takeWhile p = l
+  | [], _ => rfl
+  | x :: t, h => by
+    simp only [List.takeWhile_cons, h x (by simp), if_true]
+    rw [takeWhile_all p t (fun y hy => h y (List.mem_cons_of_mem _ hy))]
+
+theorem find_none_all {α : Type} (p : α → Bool) : ∀ (l : List α), (∀ x ∈ l, p x = false) → l.find? p = none
+  | [], _ => rfl
+  | x :: t, h => by
+    simp only [List.find?_cons, h x (by simp)]
+    exact find_none_all p t (fun y hy => h y (List.mem_cons_of_mem _ hy))
+
 theorem sim_finalise {s : Impl} {r : Ref} (c : Cfg) (h : Sim s r) (hg : s.finaliseGuard c = true) :
-    Sim (s.finalise c true) (r.finalise true) := by
+    (s.finalise c true).2 = false ∧ Sim (s.finalise c true).1 (r.finalise true) := by
   -- the guard, unpacked
   simp only [Impl.finaliseGuard, Bool.and_eq_true, List.all_eq_true] at hg
-  obtain ⟨hcover, hobjs⟩ := hg
-  have hguard : ∀ ao ∈ s.objs, ao.2.dirtyHasOrigin = true ∧
+  have hobjs := hg
+  have hguard : ∀ ao ∈ s.objs,
       ¬ (ao.2.code ≠ 0 ∧ ao.2.dirtyCode = true ∧ ao.2.code = c.tomb) ∧
-      (finDel s.dirtySet ao = true → s.store.balOf ao.1 = 0 ∧ s.store.storClean ao.1 = true) := by
+      (finDel s.dirtySet ao = true → s.store.storClean ao.1 = true) := by
     intro ao hao
     have := hobjs ao hao
-    simp only [Bool.and_eq_true, Bool.not_eq_true', Bool.or_eq_true, beq_iff_eq] at this
-    refine ⟨this.1.1, ?_, ?_⟩
+    simp only [Bool.and_eq_true, Bool.not_eq_true', Bool.or_eq_true] at this
+    refine ⟨?_, ?_⟩
     · intro hc
-      have h2 := this.1.2
+      have h2 := this.1
       have h3 : (ao.2.code != 0 && ao.2.dirtyCode && ao.2.code == c.tomb) = true := by
         rw [Bool.and_eq_true, Bool.and_eq_true]
         exact ⟨⟨by simpa using hc.1, hc.2.1⟩, by simpa using hc.2.2⟩
@@ -537,7 +565,7 @@ theorem sim_finalise {s : Impl} {r : Ref} (c : Cfg) (h : Sim s r) (hg : s.finali
   have hfh : ∀ ao ∈ s.objs, FinHyp c s.store ao.2 := by
     intro ao hao
     have hok := (h.cinv.objs ao.1 ao.2 (hmem ao hao)).2
-    exact ⟨hok.nd, (hguard ao hao).1, hok.origin, hok.codeEq, (hguard ao hao).2.1⟩
+    exact ⟨hok.nd, dho_bool hok.dho, hok.origin, hok.codeEq, (hguard ao hao).1⟩
   have hfold := fold_finalise c s.dirtySet s.objs s.store (by rw [hkeys]; exact h.cinv.nodup) hfh
   generalize hst' : s.objs.foldl (finaliseObj c true s.dirtySet) s.store = st' at hfold
   obtain ⟨hF1, hF2, hF3, hF4⟩ := hfold
@@ -546,9 +574,8 @@ theorem sim_finalise {s : Impl} {r : Ref} (c : Cfg) (h : Sim s r) (hg : s.finali
   have htd : ∀ a, a ∈ r.cur.touched → (alookup a s.objs).isSome → a ∈ s.dirtySet := by
     intro a ha hc
     have h1 := (h.touched a).mp ha
-    simp only [Impl.dirtCover, List.all_eq_true, decide_eq_true_eq] at hcover
     simp only [Impl.dirtySet, List.mem_filter]
-    exact ⟨hcover a h1, hc⟩
+    exact ⟨h.cnt.mem a h1, hc⟩
   -- an untouched account is as the records have it: neither self-destructed nor empty
   have huntouched : ∀ a x, r.cur.get a = some x → a ∉ r.cur.touched →
       s.store.view a = some (viewR x) ∧ x.suicided = false ∧ x.empty = false ∧ (∀ k, x.cslot k = x.slot k) := by
@@ -625,10 +652,9 @@ theorem sim_finalise {s : Impl} {r : Ref} (c : Cfg) (h : Sim s r) (hg : s.finali
         | true =>
           -- deleted: the guard says no balance or storage record is left behind
           have hd := hown.del hdel
-          have hgu := (hguard (a, o) hcm).2.2 hdel
           simp only [hoa] at hd
           have hga : st'.getAccount a = none := by
-            simp only [Store.getAccount, hd.1, hd.2.1, hgu.1, if_true]
+            simp only [Store.getAccount, hd.1, hd.2.1, if_true]
           have htouched : a ∈ r.cur.touched := by
             by_cases ht : a ∈ r.cur.touched
             · exact ht
@@ -749,7 +775,7 @@ theorem sim_finalise {s : Impl} {r : Ref} (c : Cfg) (h : Sim s r) (hg : s.finali
           have hd := hown.del hdel
           simp only [hoa] at hd
           rw [hd.2.2 k]
-          exact storClean_slot s.store a ((hguard (a, o) hcm).2.2 hdel).2 k
+          exact storClean_slot s.store a ((hguard (a, o) hcm).2 hdel) k
         | false =>
           by_cases hd : a ∈ s.dirtySet
           · have hcmt := hown.commit hdel hd
@@ -792,22 +818,36 @@ theorem sim_finalise {s : Impl} {r : Ref} (c : Cfg) (h : Sim s r) (hg : s.finali
             exact hF3 _ (hsok.codes a n hh hac hz)
   -- assemble
   have hf := abs_fields h
-  have hfin : s.finalise c true = { s with store := st', objs := [], journal := Journal.new, refund := 0, revisions := [] } := by
+  have hnofail : ∀ ao ∈ s.objs, commitFails c true s.dirtySet ao = false := by
+    intro ao hao
+    have hnt := (hguard ao hao).1
+    simp only [commitFails, Bool.and_eq_false_iff]
+    right
+    by_cases h1 : ao.2.code = 0
+    · left; left; simp [h1]
+    · by_cases h2 : ao.2.dirtyCode = true
+      · right
+        have : ¬ ao.2.code = c.tomb := fun e => hnt ⟨h1, h2, e⟩
+        simpa using this
+      · left; right; simpa using h2
+  have hfin : s.finalise c true = ({ s with store := st', objs := [], journal := Journal.new, refund := 0, revisions := [] }, false) := by
     simp only [Impl.finalise]
-    rw [← hst']
-    rfl
+    have hds : (s.journal.dirties.map (·.1)).filter (fun a => (alookup a s.objs).isSome) = s.dirtySet := rfl
+    rw [hds, find_none_all _ _ hnofail, takeWhile_all _ _ (fun ao hao => by simp [hnofail ao hao]), hst']
   rw [hfin]
+  refine ⟨rfl, ?_⟩
+  show Sim ({ s with store := st', objs := [], journal := Journal.new, refund := 0, revisions := [] } : Impl) (r.finalise true)
   have hview' : ∀ a, ({ s with store := st', objs := [], journal := Journal.new, refund := 0, revisions := [] } : Impl).view a = st'.view a := by
     intro a; simp [Impl.view, alookup]
   refine ⟨⟨by intro a o ha; simp [alookup] at ha, by simp [akeys], hsok'⟩, by intro e he; simp [Journal.new] at he, ?_, h.thash, h.nextRev,
-    ?_, ?_, ?_, ?_, by intro x hx; simp at hx, by simp, by simp, by simp [Ref.finalise]⟩
+    ?_, ?_, ?_, ?_, by intro x hx; simp at hx, by simp, by simp, by simp [Ref.finalise], by simp [Journal.new, JOK], JCnt.new, by simp [Journal.new, OOK]⟩
   · simp only [absI, absR, AW.mk.injEq]
     refine ⟨?_, by simp [Ref.finalise], ?_, ?_, ?_, ?_⟩
     · funext a; rw [hview' a]; exact hV a
     · funext h'; simp only [Ref.finalise]; exact hf.2.2.1 h'
     · simp only [Ref.finalise]; exact hf.2.2.2.1
-    · simp only [Ref.finalise]; exact hf.2.2.2.2.1
-    · simp only [Ref.finalise]; exact hf.2.2.2.2.2
+    · simp only [Ref.finalise]; exact funext hf.2.2.2.2.1
+    · simp only [Ref.finalise]; exact funext hf.2.2.2.2.2
   · intro a; simp [Ref.finalise, Journal.new]
   · intro a _; exact (hV a).symm
   · simp only [Ref.finalise]
